@@ -184,7 +184,7 @@ def _requirements(tier):
         "abs:body-centre": 200 * k, "cross:evaluated": 100 * k, "cross:judged": 60 * k, "cross:judged-real-eop": 50 * k,
         "station:south": 50 * k, "station:west": 50 * k, "station:high-lat": 100 * k, "station:equatorial-axes": 5 * k,
         "orbit-frame:None": 100 * k, "orbit-frame:QSW": 100 * k, "orbit-frame:TNW": 100 * k,
-        "static-lof:evaluated": 100 * k, "orbit-parent:EME2000": 100 * k, "orbit-parent:MOD": 100 * k, "orbit-parent:TEME": 100 * k,
+        "static-lof:evaluated": 100 * k, "static-pair:evaluated": 100 * k, "orbit-parent:EME2000": 100 * k, "orbit-parent:MOD": 100 * k, "orbit-parent:TEME": 100 * k,
         "history:names-registered-again": 100 * k, "body-frame:Moon": 100 * k, "body-frame:Sun": 100 * k, "forms-across:pairs": 300 * k, "forms-across:return-judged": 100 * k,
         "forms-across:to-body:Moon": 50 * k, "forms-across:to-body:Sun": 50 * k, "forms-across:to-body:None": 50 * k,
         "date:day-start": 10 * k, "date:day-end": 10 * k, "date:eqeq-switch": 5 * k, "date:table-edge": 8 * k,
@@ -578,6 +578,50 @@ def static_lof_monitor(ctx, idx, rng, st, date, mu, wit):
               key="C02/linear-part-not-isometry:static-lof", witness=w)
     ctx.expect(probe.fingerprint(ref) == fp0, "C02/conversion-modifies-reference-state-of-frame", dict(w, now_frame=str(ref.frame), now_form=str(ref.form)),
                "converting into an orbit-attached frame modified the caller's reference StateVector")
+
+
+def static_pair_monitor(ctx, idx, rng, st, date, mu, wit):
+    """Two frames attached to plain cartesian StateVectors (no propagator) given in the parent's own axes (EME2000, no local
+    orientation): states converted from one to the other cross two moving-centre links whose offsets are the reference
+    states themselves.  History monitor: the same conversion asked twice gives the same answer, round trip = identity,
+    A -> B -> EME2000 = A -> EME2000, and both reference objects are bitwise what the caller built."""
+    from beyond.frames.frames import orbit2frame
+    from beyond.orbits import StateVector
+
+    xa, _ = gen_state(rng, mu, cls="leo", bound=True)
+    xb, _ = gen_state(rng, mu, cls=rng.choice(["leo", "geo", "meo"]), bound=True)
+    ra, rb = StateVector(list(xa), date, "cartesian", "EME2000"), StateVector(list(xb), date, "cartesian", "EME2000")
+    fpa, fpb = probe.fingerprint(ra), probe.fingerprint(rb)
+    n = st.setdefault("static_n", 0)
+    st["static_n"] += 2
+    na, nb = f"L{idx}s{n}", f"L{idx}s{n + 1}"
+    w = dict(wit, scenario="two frames on plain EME2000 state vectors", x_ref_a=[float(v) for v in xa], x_ref_b=[float(v) for v in xb])
+    try:
+        fa, fb = orbit2frame(na, ra), orbit2frame(nb, rb)
+        p = np.array([rng.uniform(-5e3, 5e3) for _ in range(3)] + [rng.uniform(-5, 5) for _ in range(3)])
+        sv_a = StateVector(list(p), date, "cartesian", fa)
+        first = probe.arr(sv_a.copy(frame=fb))
+        second = probe.arr(sv_a.copy(frame=fb))
+        to_e1 = probe.arr(sv_a.copy(frame="EME2000"))
+        back = probe.arr(sv_a.copy(frame=fb).copy(frame=fa))
+        via = probe.arr(sv_a.copy(frame=fb).copy(frame="EME2000"))
+        to_e2 = probe.arr(sv_a.copy(frame="EME2000"))
+    except Exception as exc:
+        ctx.violation("C02/static-lof-frame-raises", dict(w, exc=repr(exc)), f"frames on plain state vectors: {exc!r}")
+        return
+    ctx.count("static-pair:evaluated")
+    exp_e = np.array(xa, dtype=float) + p
+    exp_b = exp_e - np.array(xb, dtype=float)
+    L = float(np.linalg.norm(xa[:3]) + np.linalg.norm(xb[:3]))
+    tol = 1e-5 + 1e-12 * L
+    ctx.expect(bool(np.array_equal(first, second)) and bool(np.array_equal(to_e1, to_e2)), "C02/static-lof-repeated-conversion-differs", dict(w, first=first, second=second),
+               "the same conversion between two frames attached to plain state vectors gives two different answers")
+    ctx.resid("static-pair:a-to-b", float(np.linalg.norm(first[:3] - exp_b[:3])), tol, key="C02/orbit-frame-centre-offset:static-pair", witness=dict(w, got=first, expected=exp_b))
+    ctx.resid("static-pair:a-to-eme2000", float(np.linalg.norm(to_e1[:3] - exp_e[:3])), tol, key="C02/orbit-frame-centre-offset:static-pair", witness=dict(w, got=to_e1, expected=exp_e))
+    ctx.resid("static-pair:roundtrip", float(np.linalg.norm(back[:3] - p[:3])), tol, key="C02/roundtrip-not-identity:static-pair", witness=w)
+    ctx.resid("static-pair:via-b", float(np.linalg.norm(via[:3] - exp_e[:3])), tol, key="C02/triple-path-dependent:static-pair", witness=w)
+    ctx.expect(probe.fingerprint(ra) == fpa and probe.fingerprint(rb) == fpb, "C02/conversion-modifies-reference-state-of-frame",
+               dict(w, ref_a_now=probe.arr(ra), ref_b_now=probe.arr(rb)), "converting between orbit-attached frames modified a caller's reference StateVector")
 
 
 # =================================================================================================== conversions
@@ -1056,6 +1100,7 @@ def run_case(ctx, job, idx, rng, st):
 
     dyn, descr = make_frames(ctx, job, idx, rng, st, day, sec)
     static_lof_monitor(ctx, idx, rng, st, date, mu, wit)
+    static_pair_monitor(ctx, idx, rng, st, date, mu, wit)
     for b in st["bodies"]:
         ctx.count("body-frame:" + b.name)
     frames = st["builtin"] + dyn + st["bodies"]
